@@ -234,3 +234,67 @@ def read_keys(f: Func, dict_param: str | None = None) -> tuple[set[str], set[str
                 if kw.arg is None and isinstance(kw.value, ast.Name) and kw.value.id in aliases:
                     star = True
     return req, opt, star
+
+
+def reconstruction_sites(repo: Repo, c: Class, method_names=('subs', 'replace')):
+    """[(method Func, call node, missing parameter names, target description)]: calls inside c.<method> that build a new
+    instance of c (`C(...)`, `cls(...)`, `self.__class__(...)`, `type(self)(...)`, `C.create(...)`) together with the
+    constructor parameters they do not supply. A parameter with default None may be omitted (an absent optional part);
+    `**attrs` counts with the keys of the dict literal bound to attrs (plus what update(kwargs) adds: unknown, so only the
+    literal keys are known to be supplied in every call)."""
+    import ast as _ast
+    out = []
+
+    def params_of(fn):
+        a = fn.node.args
+        names = [x.arg for x in a.posonlyargs + a.args]
+        if names and names[0] in ('self', 'cls'):
+            names = names[1:]
+        pos_defaults = dict(zip(names[len(names) - len(a.defaults):], a.defaults)) if a.defaults else {}
+        kwonly = [x.arg for x in a.kwonlyargs]
+        kwd = {k: d for k, d in zip(kwonly, a.kw_defaults) if d is not None}
+        required = []
+        for n in names + kwonly:
+            d = pos_defaults.get(n, kwd.get(n))
+            if d is not None and isinstance(d, _ast.Constant) and d.value is None:
+                continue
+            required.append(n)
+        return names, kwonly, required
+    init = c.methods.get('__init__')
+    create = c.methods.get('create')
+    for mname in method_names:
+        f = c.methods.get(mname)
+        if f is None:
+            continue
+        dict_lits = {}
+        for n in _ast.walk(f.node):
+            if isinstance(n, _ast.Assign) and len(n.targets) == 1 and isinstance(n.targets[0], _ast.Name) \
+                    and isinstance(n.value, _ast.Dict):
+                dict_lits[n.targets[0].id] = {k.value for k in n.value.keys if isinstance(k, _ast.Constant)}
+        for call in [x for x in _ast.walk(f.node) if isinstance(x, _ast.Call)]:
+            fn = call.func
+            target = None
+            txt = _ast.unparse(fn)
+            if txt in (c.name, 'cls', 'self.__class__', 'type(self)') and init is not None:
+                target = init
+            elif txt in (f'{c.name}.create', 'cls.create', 'self.__class__.create', 'type(self).create', 'self.create') \
+                    and create is not None:
+                target = create
+            if target is None:
+                continue
+            names, kwonly, required = params_of(target)
+            supplied = set(names[:len([a for a in call.args if not isinstance(a, _ast.Starred)])])
+            if any(isinstance(a, _ast.Starred) for a in call.args):
+                supplied |= set(names)
+            for k in call.keywords:
+                if k.arg is not None:
+                    supplied.add(k.arg)
+                elif isinstance(k.value, _ast.Name) and k.value.id in dict_lits:
+                    supplied |= dict_lits[k.value.id]
+                elif isinstance(k.value, _ast.Dict):
+                    supplied |= {kk.value for kk in k.value.keys if isinstance(kk, _ast.Constant)}
+                else:
+                    supplied |= set(names) | set(kwonly)      # **unknown: cannot tell, assume complete
+            missing = [p for p in required if p not in supplied]
+            out.append((f, call, missing, f'{c.name}.{target.name}'))
+    return out
